@@ -1,3 +1,190 @@
-/- C20 — property theorems (stub: the property is not claimed yet). -/
+/-
+  C20 — fragment APIs build what the document parser would build, attached where asked.
+
+  Model: AHP/Model/Fragment.lean (constructors), AHP/Model/Dom.lean (`createBlocks`, `World.appendInnerHTML`).
+  The document parser is an input: `p : Parsed` is what the tree builder produced for the fragment
+  text — `single r` (one root element; the first pass succeeded) or `multi tops` (the first pass raised
+  MultipleRootNodeException; `tops` are the blocks of the invisible wrapper of the second pass).
+  `p.build doc n` is the element tree the temporary parser holds; `sfragment n p` (AHP/Lemmas/DomSpec) is
+  the list of top-level nodes of that parse as plain trees: `[root]`, resp. the wrapper's blocks.
+  The theorems are stated over this input so that they compose with the tree-builder theorems (C02).
+-/
+import AHP.Lemmas.DomAppend
 namespace AHP.C20
+open AHP AHP.Dom AHP.Dom.Spec
+
+/-! ## C20a — createElementFromHTML -/
+
+/-- C20a. With exactly one root the result is the root the parser built (consistent, without parent);
+    it never raises. -/
+theorem createElementFromHTML_single (doc n : Nat) (r : FN) :
+    createElementFromHTML doc n (.single r) = .ok ((Parsed.single r).build doc n).1 ∧
+    OK none (some doc) ((Parsed.single r).build doc n).1 :=
+  ⟨rfl, mk_OK none (some doc) r n⟩
+
+/-- C20a. It raises MultipleRootNodeException exactly when the parser needed the wrapper, i.e. when
+    there is more than one top-level node. -/
+theorem createElementFromHTML_raises_iff (doc n : Nat) (p : Parsed) :
+    createElementFromHTML doc n p = .error "MultipleRootNodeException" ↔ ∃ tops, p = .multi tops := by
+  cases p with
+  | single r => simp [createElementFromHTML]
+  | multi tops => simp [createElementFromHTML]
+
+/-! ## C20c — createBlocksFromHTML -/
+
+/-- C20c. The blocks are exactly the top-level nodes of the parse, in order: the single root *itself*
+    (not its contents), or the blocks of the wrapper — nothing else, no other text. -/
+theorem createBlocksFromHTML_top_level (doc n : Nat) (p : Parsed) (hp : Parsed.plain p) :
+    absL (createBlocksFromHTML doc n p) = (sfragment n p).1 :=
+  (abs_createBlocks p hp doc n).1
+
+/-- C20c. Every element handed out is a consistent root (no parent; children / text caches right;
+    one ownerDocument throughout), uids are fresh and distinct. -/
+theorem createBlocksFromHTML_roots (doc n : Nat) (p : Parsed) :
+    (∀ r ∈ (createBlocksFromHTML doc n p).filter DN.isEl, RootOK r) ∧
+    (idsL ((createBlocksFromHTML doc n p).filter DN.isEl)).Nodup ∧
+    (∀ i ∈ idsL ((createBlocksFromHTML doc n p).filter DN.isEl), n ≤ i) := by
+  obtain ⟨k, hok, hids, _⟩ := build_spec p doc n
+  obtain ⟨h1, h2, h3⟩ := createBlocks_roots _ hok hids
+  exact ⟨h1, h2, fun i hi => (h3 i hi).1⟩
+
+/-- C20c. With several top-level nodes the elements handed out are detached from the wrapper:
+    parentNode None and ownerDocument None throughout. -/
+theorem createBlocksFromHTML_multi_detached (doc n : Nat) (tops : List FN) :
+    ∀ r ∈ (createBlocksFromHTML doc n (.multi tops)).filter DN.isEl, Detached r := by
+  obtain ⟨k, hok, _, _⟩ := build_spec (.multi tops) doc n
+  simp only [createBlocksFromHTML, Parsed.build] at hok ⊢
+  simp only [createBlocks, wrapperName, if_true]
+  simp only [OK_el] at hok
+  exact detachTop_roots _ _ hok.2.2.2.2.2 (fun i hi => hi)
+
+/-! ## C20b — createElementsFromHTML -/
+
+/-- C20b. The result is the list of top-level elements of `createBlocksFromHTML`, in order (with
+    several top-level nodes: every one of them, detached, none missing). -/
+theorem createElementsFromHTML_eq (doc n : Nat) (p : Parsed) (hp : Parsed.plain p) :
+    (createElementsFromHTML doc n p).map (Option.map abs) = ((sfragment n p).1.filter SN.isEl).map some := by
+  cases p with
+  | single r =>
+    have := abs_mk none (some doc) r n
+    cases r with
+    | text s => simp [createElementsFromHTML, Parsed.build, sfragment, smk, List.filter, SN.isEl]
+    | el name attrs sc kids =>
+      simp only [Parsed.plain] at hp
+      simp only [createElementsFromHTML, Parsed.build, sfragment]
+      rw [mk_el] at this ⊢
+      simp only [if_neg hp, List.map_cons, List.map_nil, Option.map_some]
+      rw [this.1]
+      simp [smk, List.filter, SN.isEl]
+  | multi tops =>
+    obtain ⟨k, hok, hids, _⟩ := build_spec (.multi tops) doc n
+    have hb := abs_createBlocks (.multi tops) trivial doc n
+    simp only [createElementsFromHTML, Parsed.build, wrapperName, if_true] at hok hids hb ⊢
+    simp only [OK_el] at hok
+    have hnd : (elemIds (mkL (some n) (some doc) tops (n + 1)).1).Nodup := by
+      have h0 : (elemIds (DN.text [] :: (mkL (some n) (some doc) tops (n + 1)).1)).Nodup := by
+        apply elemIds_nodup
+        have := range'_nodup n k
+        rw [← hids] at this
+        simp only [ids_el, List.nodup_cons] at this
+        exact this.2
+      simpa using h0
+    rw [locRemoveChildren_all (elemIds (mkL (some n) (some doc) tops (n + 1)).1) _
+      (DN.text [] :: (mkL (some n) (some doc) tops (n + 1)).1) rfl (by simp) hnd]
+    rw [← hb.1]
+    simp only [createBlocks, wrapperName, if_true, List.map_map]
+    generalize (DN.text [] :: (mkL (some n) (some doc) tops (n + 1)).1) = l
+    generalize elemIds (mkL (some n) (some doc) tops (n + 1)).1 = ch
+    induction l with
+    | nil => simp [List.filter]
+    | cons b bs ih =>
+      cases b with
+      | text s => simpa [List.filter, DN.isEl, SN.isEl, detachTop] using ih
+      | el m k =>
+        simp only [List.filter, DN.isEl, List.map_cons, Function.comp, Option.map_some, detach, abs_reown, abs_setParent]
+        simp only [absL_cons, abs_detachTop, abs_el, SN.isEl, List.filter, List.map_cons]
+        exact congrArg _ ih
+
+/-! ## C20d — appendInnerHTML -/
+
+/-- C20d. `appendInnerHTML(h)` is `appendBlock` folded over `createBlocksFromHTML(h)` (whose new
+    elements have joined the world as detached roots). -/
+theorem appendInnerHTML_is_fold (w : World) (t : Nat) (p : Parsed) :
+    w.appendInnerHTML t p =
+      (World.appendBlocksLoop
+        { roots := w.roots ++ (createBlocksFromHTML w.nextDoc w.next p).filter DN.isEl,
+          next := (p.build w.nextDoc w.next).2, nextDoc := w.nextDoc + 1 }
+        t ((createBlocksFromHTML w.nextDoc w.next p).map toBlk)).map (fun w' => (w', .none)) := rfl
+
+/-- C20d. It keeps the world invariant of C04 — so afterwards every new element's parentNode is the
+    element whose block it is, and its ownerDocument (and that of everything below it) is the
+    target's document. -/
+theorem appendInnerHTML_keeps_inv (w w' : World) (t : Nat) (p : Parsed) (v : Val) (hw : Inv w)
+    (h : w.appendInnerHTML t p = some (w', v)) : Inv w' :=
+  appendInnerHTML_Inv hw h
+
+/-- C20d. On the reference document: appendInnerHTML is the documented append of the parse's
+    top-level nodes, one by one. -/
+theorem appendInnerHTML_refines (w : World) (t : Nat) (p : Parsed) (hw : Inv w) (hp : Parsed.plain p) :
+    (w.appendInnerHTML t p).map absR = (absW w).appendInnerHTML t p :=
+  abs_appendInnerHTML hw t p hp
+
+theorem createBlocks_ne_nil (p : Parsed) (d n : Nat) : createBlocks (p.build d n).1 ≠ [] := by
+  cases p with
+  | single r =>
+    cases r with
+    | text s => simp [Parsed.build, createBlocks]
+    | el name attrs sc kids =>
+      simp only [Parsed.build]; rw [mk_el]; simp only [createBlocks]; split <;> simp
+  | multi tops => simp [Parsed.build, createBlocks, wrapperName]
+
+/-- C20d. After `appendInnerHTML(h)` the target's blocks are the previous blocks followed by the
+    top-level nodes of the parse, and its innerHTML is the previous innerHTML followed by the
+    serialisation of those nodes (also when the target was self-closing before: then the previous
+    innerHTML is empty and the flag is cleared). -/
+theorem appendInnerHTML_innerHTML (w w' : World) (t : Nat) (p : Parsed) (v : Val) (m : Meta) (bs : List DN)
+    (hw : Inv w) (hp : Parsed.plain p) (hf : w.find? t = some (m, bs)) (h : w.appendInnerHTML t p = some (w', v)) :
+    ∃ m' bs', w'.find? t = some (m', bs') ∧ absL bs' = absL bs ++ (sfragment w.next p).1 ∧
+      innerHTML m' bs' = innerHTML m bs ++ shtmlL (sfragment w.next p).1 := by
+  simp only [World.appendInnerHTML, Option.map_eq_some_iff] at h
+  obtain ⟨w1, h1, he⟩ := h
+  simp only [Prod.mk.injEq] at he
+  obtain ⟨m', bs', hf', hb, hsc, _⟩ := appendLoop_blocks t (createBlocks (p.build w.nextDoc w.next).1) w.roots _ _ m bs w1 hf
+    (fragment_world_Inv p hw) h1
+  have hcb := (abs_createBlocks p hp w.nextDoc w.next).1
+  rw [hcb] at hb
+  refine ⟨m', bs', he.1 ▸ hf', hb, ?_⟩
+  have hsc' : m'.sc = false := hsc (createBlocks_ne_nil p _ _)
+  obtain ⟨par, own, hk⟩ := findL?_roots_OK t w.roots hw.roots hf
+  simp only [OK_el] at hk
+  have hold : innerHTML m bs = shtmlL (absL bs) := by
+    simp only [innerHTML]
+    split
+    · rename_i hs
+      rw [← innerL_abs, noContent_innerL bs (hk.2.2.2.2.1 hs)]
+    · exact innerL_abs bs
+  rw [hold]
+  simp only [innerHTML, hsc']
+  rw [innerL_abs, hb, shtmlL_append]
+  simp
+
+/-! ## C20e — createElement -/
+
+/-- C20e. `createElement(name)` is detached (no parent, no ownerDocument), lower-cased, without
+    attributes, children or text (its only block is the empty indent string); it is self-closing
+    exactly for the void tag names. -/
+theorem createElement_fresh (name : Str) (n : Nat) :
+    createElement name n = .el ⟨n, lower name, [], isVoid (lower name), [], [], none, none⟩ [.text []] ∧
+    Detached (createElement name n) := by
+  refine ⟨by simp [createElement, mk_el], ?_⟩
+  obtain ⟨m, bs, h, _, _⟩ := mk_isEl none none (lower name) [] false [] n
+  exact ⟨m, bs, h, mk_OK none none _ n⟩
+
+/-! ## Non-vacuity -/
+
+def exFrag : Parsed := .multi [.text "hi ".toList, .el "b".toList [] false [.text "x".toList], .el "br".toList [] false []]
+example : Parsed.plain exFrag := trivial
+example : (createBlocksFromHTML 1 5 exFrag).length = 4 := by decide
+example : ((initWorld true (.el "div".toList [] false []) []).appendInnerHTML 0 exFrag).isSome = true := by decide
+
 end AHP.C20
